@@ -359,7 +359,18 @@ let run_iter (c : case) (tc : testcase) (d : Model.n driver) (wdefault : bool) (
          if k >= c.max then pr "END limit\n"
          else
            match inext g d wdefault tc fuel st with
-           | ItNone _ -> pr "END none\n"
+           | ItNone st1 ->
+               pr "END none\n";
+               if not static then begin
+                 (* nothing happens once next() has returned None: ask twice more *)
+                 let word st = match inext g d wdefault tc fuel st with
+                   | ItNone s -> ("none", Some s) | ItRow (_, s) -> ("ROW", Some s) | ItErr (_, s) -> ("ERR", Some s)
+                   | ItPanic _ -> ("PANIC", None) | ItOOF -> ("OOF", None) in
+                 let (w1, s1) = word st1 in
+                 let (w2, s2) = match s1 with Some s -> word s | None -> ("-", None) in
+                 let calls = match s2 with Some s -> List.length s.i_log - List.length st1.i_log | None -> 0 in
+                 pr "AFTER %s %s calls=%d\n" w1 w2 calls
+               end
            | ItPanic s -> pr "ITEM panic # site %s\n" (ns s); pr "END panic\n"
            | ItOOF -> pr "ITEM oof\n"; pr "END oof\n"
            | ItErr (e, st') ->
